@@ -270,4 +270,25 @@ theorem from_str_spec (F : FP) (s : List Char) :
   unfold FP.fromStr decVal
   exact fromStr_aux F s 0 0 (Nat.zero_mod _).symm
 
+theorem decVal_eq_ofDigitChars (s : List Char) : decVal s = Nat.ofDigitChars 10 s 0 := rfl
+
+/-- **Display then FromStr is the identity** on canonical values: zero prints as the empty string, which parses to 0;
+any other value prints as its decimal digits -/
+theorem display_from_str (F : FP) (x : ℕ) (hx : x < F.m) : F.fromStr (FP.display x).toList = some x := by
+  rw [from_str_spec]
+  unfold FP.display
+  by_cases h0 : x = 0
+  · subst h0
+    simp [decVal, Nat.zero_mod]
+  · have hb : (x == 0) = false := by simpa using h0
+    simp only [hb, Bool.false_eq_true, if_false]
+    have hl : (toString x).toList = Nat.toDigits 10 x := by
+      rw [Nat.toString_eq_repr, Nat.toList_repr]
+    rw [hl]
+    have hall : (Nat.toDigits 10 x).all Char.isDigit = true := by
+      rw [List.all_eq_true]
+      intro c hc
+      exact Nat.isDigit_of_mem_toDigits (by norm_num) (by norm_num) hc
+    rw [hall, if_pos rfl, decVal_eq_ofDigitChars, Nat.ofDigitChars_toDigits (by norm_num) (by norm_num), Nat.mod_eq_of_lt hx]
+
 end C11
